@@ -126,6 +126,8 @@ func gen(c *lib.Ctx) {
 		genC03SCION(c)
 		genNoStamp(c, "c03nostamp-ip", false)
 		genNoStamp(c, "c03nostamp-scion", true)
+		genLatePort(c, "c03lateport-ip", false)
+		genLatePort(c, "c03lateport-scion", true)
 	case "c05":
 		genC05IP(c)
 		genWrapIP(c)
@@ -146,6 +148,9 @@ func gen(c *lib.Ctx) {
 		genReframe(c, "c05reframe", false)
 		genNoStamp(c, "c05nostamp-ip", false)
 		genNoStamp(c, "c05nostamp-scion", true)
+	case "port": // development
+		genLatePort(c, "c03lateport-ip", false)
+		genLatePort(c, "c03lateport-scion", true)
 	case "reframe": // development
 		genReframe(c, "c05reframe", false)
 	case "retry": // development
